@@ -26,6 +26,12 @@ CHECKS = {
  "C12": ("model_checking", "explicit-state equivalence checking (product BFS of hierarchical design x flat design) + structural comparison of the emitted text",
          "instantiation trees (4 leaf templates x 8 topologies, slice/bit/view actuals, nesting, inline, OpenEntity/ConnectedEntity) rendered hierarchically and flat; BFS over the product under all inputs; port lists, port maps, entity order, to_dir files compared with the source",
          "flat rendering calls the same logic function on the same actuals; vsim trusted"),
+ "C16": ("model_checking", "explicit-state model checking (product BFS of marker-wrapper design x reference counter models with admissible-state sets)",
+         "wait_for / Waiter / delayed / DelayLine / continuous_counter / ClockDivider / ToggleSignal / debounce configurations (constant, run-time and Duration arguments) each explored to exhaustion under every admissible input per clock against counters written from the docstrings and upstream mocks",
+         "phases the documentation leaves open are modelled as nondeterminism; vsim trusted; see notes/C16.md"),
+ "C18": ("exploration", "bounded-exhaustive enumeration of helper call shapes x every input value at Python level and in compiled wrappers; CRC by exhaustive message-prefix tree",
+         "all 38 named helpers x widths 1..6 (thorough 1..9) x every input value, evaluated on constants and in compiled std.concurrent wrappers under vsim; CRC for all polynomials of width 3..5 and all messages <=6 bits under all step splits against polynomial long division",
+         "oracle = plain-int definitions from the .pyi docstrings; undocumented corner inputs are outside the alphabet (notes/C18.md)"),
 }
 ORDER = sorted(CHECKS)
 NA = []
